@@ -1460,3 +1460,213 @@ func (c11PassCache) TakeWithExpire(val any, _ string, query func(any, time.Durat
 func (c11PassCache) TakeWithExpireCtx(_ context.Context, val any, _ string, query func(any, time.Duration) error) error {
 	return query(val, time.Minute)
 }
+
+// ---- distinct struct types that share one name ----------------------------------------
+// Function-local types declared in different functions all print as "sqlx_test.row"
+// (reflect.Type.String is only package-name qualified): the mapping of one must not depend
+// on which other type of that name was mapped earlier in the process.
+
+var c11RowCols = map[string]driver.Value{"id": int64(41), "first": "Ada", "last": "Lovelace", "age": int64(36), "n": int64(-7), "extra": []byte("zz")}
+
+type c11LocalQuery func(dest any) error
+
+func c11LocalA(q c11LocalQuery, many bool) string {
+	type row struct {
+		First string `db:"first"`
+		Last  string `db:"last"`
+	}
+	var got []row
+	if many {
+		if err := q(&got); err != nil {
+			return "err: " + err.Error()
+		}
+	} else {
+		got = make([]row, 1)
+		if err := q(&got[0]); err != nil {
+			return "err: " + err.Error()
+		}
+	}
+	for _, g := range got {
+		if g != (row{"Ada", "Lovelace"}) {
+			return fmt.Sprintf("got %+v want {First:Ada Last:Lovelace}", g)
+		}
+	}
+	return c11LocalLen(len(got), many)
+}
+
+func c11LocalB(q c11LocalQuery, many bool) string {
+	type row struct {
+		Last  string `db:"last"`
+		First string `db:"first"`
+	}
+	var got []row
+	if many {
+		if err := q(&got); err != nil {
+			return "err: " + err.Error()
+		}
+	} else {
+		got = make([]row, 1)
+		if err := q(&got[0]); err != nil {
+			return "err: " + err.Error()
+		}
+	}
+	for _, g := range got {
+		if g != (row{Last: "Lovelace", First: "Ada"}) {
+			return fmt.Sprintf("got %+v want {Last:Lovelace First:Ada}", g)
+		}
+	}
+	return c11LocalLen(len(got), many)
+}
+
+func c11LocalC(q c11LocalQuery, many bool) string {
+	type row struct {
+		ID    int64  `db:"id"`
+		Last  string `db:"last"`
+		Age   int    `db:"age"`
+		First string `db:"first"`
+	}
+	var got []row
+	if many {
+		if err := q(&got); err != nil {
+			return "err: " + err.Error()
+		}
+	} else {
+		got = make([]row, 1)
+		if err := q(&got[0]); err != nil {
+			return "err: " + err.Error()
+		}
+	}
+	for _, g := range got {
+		if g != (row{41, "Lovelace", 36, "Ada"}) {
+			return fmt.Sprintf("got %+v want {ID:41 Last:Lovelace Age:36 First:Ada}", g)
+		}
+	}
+	return c11LocalLen(len(got), many)
+}
+
+func c11LocalD(q c11LocalQuery, many bool) string {
+	type row struct {
+		N     int64  `db:"n"`
+		First string `db:"first"`
+	}
+	var got []*row
+	if many {
+		if err := q(&got); err != nil {
+			return "err: " + err.Error()
+		}
+	} else {
+		got = []*row{{}}
+		if err := q(got[0]); err != nil {
+			return "err: " + err.Error()
+		}
+	}
+	for _, g := range got {
+		if g == nil || *g != (row{-7, "Ada"}) {
+			return fmt.Sprintf("got %+v want {N:-7 First:Ada}", g)
+		}
+	}
+	return c11LocalLen(len(got), many)
+}
+
+func c11LocalE(q c11LocalQuery, many bool) string {
+	type row struct {
+		First string `db:"last"` // same field names as A, tags crossed
+		Last  string `db:"first"`
+	}
+	var got []row
+	if many {
+		if err := q(&got); err != nil {
+			return "err: " + err.Error()
+		}
+	} else {
+		got = make([]row, 1)
+		if err := q(&got[0]); err != nil {
+			return "err: " + err.Error()
+		}
+	}
+	for _, g := range got {
+		if g != (row{First: "Lovelace", Last: "Ada"}) {
+			return fmt.Sprintf("got %+v want {First:Lovelace Last:Ada}", g)
+		}
+	}
+	return c11LocalLen(len(got), many)
+}
+
+func c11LocalLen(n int, many bool) string {
+	if many && n != 2 {
+		return fmt.Sprintf("2 rows, %d elements", n)
+	}
+	return ""
+}
+
+// TestVerifC11SameNameTypes interleaves the five local `row` types in one process.
+func TestVerifC11SameNameTypes(t *testing.T) {
+	m := vk.New(t, "C11", "five distinct function-local struct types that all print as sqlx_test.row (different field order, tag order, field count, crossed tags) queried in seeded interleavings (QueryRow / QueryRows, strict / partial, all six result columns in seeded order) within one process: each must be filled by ITS tags whatever was mapped before; non-trivial = always")
+	defer m.Done()
+	c11Setup()
+	locals := []struct {
+		name string
+		fn   func(c11LocalQuery, bool) string
+	}{{"A", c11LocalA}, {"B", c11LocalB}, {"C", c11LocalC}, {"D", c11LocalD}, {"E", c11LocalE}}
+	r := m.Rand("same-name")
+	rounds := vk.N(40, 2000)
+	idx := 0
+	names := []string{"id", "first", "last", "age", "n", "extra"}
+	for round := 0; round < rounds; round++ {
+		for _, li := range r.Perm(len(locals)) {
+			idx++
+			many, strict := r.Intn(2) == 0, r.Intn(2) == 0
+			perm := r.Perm(len(names))
+			if !m.Only(idx) {
+				continue
+			}
+			l := locals[li]
+			var res c11Result
+			var row []driver.Value
+			for _, pi := range perm {
+				res.Cols = append(res.Cols, names[pi])
+				row = append(row, c11RowCols[names[pi]])
+			}
+			res.Rows = [][]driver.Value{row, row}
+			desc := fmt.Sprintf("case=%d;{\"local_type\":%q,\"many\":%v,\"strict\":%v,\"cols\":%q}", idx, l.name, many, strict, res.Cols)
+			m.Current(desc)
+			rec := c11NewRec()
+			rec.results = []c11Result{res}
+			db, closeDB, err := c11Open(rec)
+			if err != nil {
+				m.Inconclusive("open: %v", err)
+				return
+			}
+			conn := sqlx.NewConnFromDB(db)
+			q := func(dest any) error {
+				switch {
+				case many && strict:
+					return conn.QueryRows(dest, "select * from people")
+				case many:
+					return conn.QueryRowsPartial(dest, "select * from people")
+				case strict:
+					return conn.QueryRow(dest, "select * from people")
+				}
+				return conn.QueryRowPartial(dest, "select * from people")
+			}
+			var diff string
+			pv, panicked := vk.Recover(func() { diff = l.fn(q, many) })
+			closeDB()
+			sig := "C11:orm:same-name-types:" + l.name + ":"
+			switch {
+			case panicked:
+				m.Violate(sig+"panic", desc, "panic: %v", pv)
+			case strings.HasPrefix(diff, "err: "):
+				m.Violate(sig+"unexpected-error", desc, "%s", diff)
+			case diff != "":
+				m.Violate(sig+"wrong-value", desc, "%s", diff)
+			default:
+				m.Count("structs_checked_"+l.name, 1)
+			}
+			m.Case(vk.Digest(desc), true)
+			if idx == 3 {
+				m.Sample(map[string]any{"local_type": l.name, "reflect_name": "sqlx_test.row", "cols": res.Cols, "observed": "mapped by its own tags"})
+			}
+		}
+	}
+}
